@@ -9,7 +9,9 @@
    numbers.  `api_dest inF outF` is the path string the result is published under. *)
 From stdpp Require Import gmap.
 From Coq Require Import NArith List.
-From PV Require Import C01.FS C03.Model C03.Proofs.
+From Coq Require Import String.
+From PV Require Import C01.FS C03.Model C03.Generated C03.Proofs C03.ProofsTable.
+Open Scope list_scope.
 
 Section Statements.
 Variable fresh_ent : gmap positive dent -> positive.
@@ -90,7 +92,41 @@ Theorem write_reader_publishes : forall path b s0 s',
     (forall i f, idir s0 !! sp_ent path = Some (DFile i) -> inos s0 !! i = Some f -> md = fmode f) /\
     (idir s0 !! sp_ent path = None -> md = perm_new umask).
 Proof. exact (write_reader_publishes_proof fresh_ent fresh_ino umask Hfe Hfi). Qed.
+
+(* several inputs (image mode of grid / n-up / booklet, import images): a refused alias changes nothing … *)
+Theorem multi_alias_refused : forall ins o b s,
+  reject_alias ins o s = true ->
+  multi_image_i fresh_ent fresh_ino umask ins o b s = RErr EEXIST s /\
+  import_images_i fresh_ent fresh_ino umask ins o b s = RErr EEXIST s.
+Proof. exact (multi_alias_refused_proof fresh_ent fresh_ino umask). Qed.
+
+(* … and a run that is not refused and succeeds leaves the input at EVERY position unchanged *)
+Theorem multi_inputs_unchanged : forall ins o b s0 s',
+  wlog s0 = [] ->
+  (multi_image_i fresh_ent fresh_ino umask ins o b s0 = ROk tt s' \/
+   import_images_i fresh_ent fresh_ino umask ins o b s0 = ROk tt s') ->
+  forall x i f, In x ins -> idir s0 !! sp_ent x = Some (DFile i) -> inos s0 !! i = Some f ->
+  idir s' !! sp_ent x = Some (DFile i) /\ inos s' !! i = Some f.
+Proof. exact (multi_inputs_unchanged_proof fresh_ent fresh_ino umask Hfe Hfi). Qed.
 End Statements.
+
+(* the alias check over the list of inputs refuses exactly when SOME input (at any position) is the same entry
+   as the output or resolves to the same inode *)
+Theorem reject_alias_spec : forall ins o s,
+  reject_alias ins o s = true <->
+  exists x, In x ins /\
+    (sp_ent x = sp_ent o \/
+     exists i fi fo, resolve (idir s) (sp_ent x) = Some i /\ resolve (idir s) (sp_ent o) = Some i /\
+                     inos s !! i = Some fi /\ inos s !! i = Some fo).
+Proof. exact reject_alias_spec_proof. Qed.
+
+(* the alias loops of the sources (table regenerated on every run): each `for _, v := range files` loop that
+   calls an …AliasesInput function passes its loop variable v as the input and never as the output *)
+Theorem alias_loops_use_loop_variable :
+  forallb (fun r => snd r) alias_loops = true /\
+  (forall f, In f ["rejectGridImageOutputAlias"; "rejectNUpImageOutputAlias"; "rejectBookletImageOutputAlias";
+                   "validateImportImagesOutput"]%string -> In f (map fst alias_loops)).
+Proof. exact alias_loops_proof. Qed.
 
 (* outputAliasesInput is exact: true iff same entry after Abs, or both exist and resolve to one inode *)
 Theorem output_aliases_input_spec : forall x o s,
@@ -108,6 +144,10 @@ Print Assumptions alias_is_inplace.
 Print Assumptions alias_spelling_is_inplace.
 Print Assumptions copy_same_file_noop.
 Print Assumptions write_reader_publishes.
+Print Assumptions multi_alias_refused.
+Print Assumptions multi_inputs_unchanged.
+Print Assumptions reject_alias_spec.
+Print Assumptions alias_loops_use_loop_variable.
 Print Assumptions output_aliases_input_spec.
 
 (* non-vacuity: entry 2 = in.pdf (inode 10, bytes 7 7, mode 0640), entry 3 = symlink -> 2, entry 4 = hard
@@ -136,6 +176,9 @@ Example C03_nonvacuous :
   ex_look r2 4 = (Some (DFile 10), Some (File [7%N; 7%N] 416)) /\
   output_aliases_input (Sp 2 0) (Sp 3 0) ex_s = true /\ output_aliases_input (Sp 2 0) (Sp 4 0) ex_s = true /\
   output_aliases_input (Sp 2 0) (Sp 5 0) ex_s = false /\
+  (* an output that is another spelling of the SECOND input is refused; a fresh one is not *)
+  reject_alias [Sp 5 0; Sp 2 0] (Sp 2 1) ex_s = true /\ reject_alias [Sp 5 0; Sp 2 0] (Sp 4 0) ex_s = true /\
+  reject_alias [Sp 5 0; Sp 2 0] (Sp 6 0) ex_s = false /\
   (* a group/other-writable destination (0664) keeps its mode under umask 022 and 077; a new one gets 0666 &^ umask *)
   (let s664 := mk_state [(2%positive, DFile 10)] [(10%positive, File [7%N] 436)] in
    ex_look (run_write_reader_i 18 (Sp 2 0) [BWrite [1%N]] s664) 2 = (Some (DFile 64), Some (File [1%N] 436)) /\
